@@ -651,6 +651,13 @@ Section Sim.
     inversion H; subst. apply IH in E4. apply read_len_shorter in E3. cbn [length] in *. unfold byte in *. lia.
   Qed.
 
+  Lemma total_len_last ss (last : list Z) : total_len ss last = total_len ss [] + Z.of_nat (length last).
+  Proof.
+    induction ss as [|x ss IH].
+    - cbn [total_len fold_right length]. unfold byte. lia.
+    - unfold total_len in *. cbn [fold_right]. rewrite IH. unfold byte. lia.
+  Qed.
+
   Lemma total_len_ge ss last : Forall (fun x => 0 <= s_mlen x) ss -> Z.of_nat (length last) <= total_len ss last.
   Proof.
     induction 1 as [|x l Hx Hl IH]; cbn [total_len fold_right].
@@ -1193,6 +1200,181 @@ Section Sim.
         * unfold part_post. cbn [ip op dm]. unfold byte in *. intros done s' (H1 & H2 & H3). rewrite <- Ell in *.
           split; [exact H1|]. split; [exact H2|].
           destruct done; [exact H3|]. destruct H3 as [H3 [H4 H5]]. split; [exact H3|]. cbn [length]. split; [lia|]. split; assumption.
+  Qed.
+
+  (* ---------- the final literal run in partial mode ---------- *)
+  Lemma safe_top_last_part s tok r ll r1 lits rout :
+    partial = true ->
+    bytes (tok :: r) -> src_at srcm (ip s) (tok :: r) -> 0 <= ip s ->
+    ip s + Z.of_nat (length (tok :: r)) <= iend ->
+    (ip s + Z.of_nat (length (tok :: r)) = iend \/ oend <= op s + ll) ->
+    read_len (tok / 16) r = Some (ll, r1) -> take (Z.to_nat ll) r1 = Some (lits, []) ->
+    out_at (vget (dm s)) (op s) rout -> 0 <= op s -> op s <= oend ->
+    is_done (safe_top partial dict srcm iend oend lowPrefix rlow dictm dictSize s)
+            (fun s' => op s' = op s + Z.min ll (oend - op s) /\
+                       out_at (vget (dm s')) (op s') (skipn (Z.to_nat (ll - Z.min ll (oend - op s))) (rev lits ++ rout))).
+  Proof.
+    intros Hp Hb Hs Hip Hie Hex Hrl1 Htk O Hop Hoe.
+    unfold byte in *.
+    destruct (bytes_cons _ _ Hb) as [Htok Hbr].
+    destruct (src_at_cons _ _ _ _ Hs) as [Htokm Hsr].
+    destruct (nibbles tok Htok) as [Hn1 Hn2].
+    cbn [length] in Hie, Hex.
+    destruct (read_len_suffix _ _ _ _ _ Hn1 Hrl1 Hbr Hsr) as (Hl1 & Hll & Hnoext & Hs1 & Hb1).
+    unfold byte in *.
+    set (p1 := ip s + 1 + (Z.of_nat (length r) - Z.of_nat (length r1))) in *.
+    destruct (take_spec _ _ _ _ Htk) as [Er1 Hlits]. unfold byte in *.
+    rewrite app_nil_r in Er1.
+    assert (Ell : ll = Z.of_nat (length lits)) by lia.
+    assert (Hlr1 : length r1 = length lits) by (rewrite Er1; reflexivity).
+    rewrite Er1 in Hs1.
+    unfold safe_top. cbv zeta. rewrite Htokm.
+    assert (Esc : negb (tok / 16 =? RUN_MASK) && ((ip s + 1 <? shortiend iend) && (op s <=? shortoend oend)) = false).
+    { destruct (tok / 16 =? RUN_MASK) eqn:E15; [reflexivity|].
+      assert (Hlt15 : tok / 16 < 15) by fin.
+      destruct (Hnoext Hlt15) as [Ell' Er]. rewrite Er in Hlr1. fin. }
+    rewrite Esc. cbv beta iota.
+    assert (Hlit : forall kf,
+      is_done (safe_lit partial dict srcm iend oend lowPrefix rlow dictm dictSize (mkD p1 (op s) (dm s) kf) tok (Z.of_nat (length lits)))
+              (fun s' => op s' = op s + Z.min ll (oend - op s) /\
+                         out_at (vget (dm s')) (op s') (skipn (Z.to_nat (ll - Z.min ll (oend - op s))) (rev lits ++ rout)))).
+    { intros kf. unfold safe_lit. cbv zeta. cbn [ip op dm]. rewrite Hp. cbn [negb andb].
+      assert (Ep1 : p1 + Z.of_nat (length lits) <= iend) by (unfold p1; lia).
+      assert (Ep1' : p1 + Z.of_nat (length lits) = iend \/ oend <= op s + ll) by (unfold p1; lia).
+      hd.
+      assert (Ec1 : (p1 + Z.of_nat (length lits) >? iend) = false) by lia. rewrite Ec1. cbv beta iota.
+      destruct (op s + Z.of_nat (length lits) >? oend) eqn:Eclip; cbv beta iota.
+      - assert (Ed : (oend =? oend) || (p1 + (oend - op s) >=? iend - 2) = true) by lia.
+        rewrite orb_false_l, Ed. cbn [is_done op dm].
+        replace (Z.min ll (oend - op s)) with (oend - op s) by lia.
+        split; [lia|].
+        replace (Z.to_nat (ll - (oend - op s))) with (length lits - Z.to_nat (oend - op s))%nat by lia.
+        rewrite <- rev_firstn_skipn by lia.
+        replace (op s + (oend - op s)) with (op s + Z.of_nat (length (firstn (Z.to_nat (oend - op s)) lits))) by (rewrite firstn_length; lia).
+        apply lits_out_v with (m := dm s); try assumption.
+        + apply blit_same_below.
+        + apply blit_lits; [|rewrite firstn_length; lia].
+          intros j Hj. rewrite firstn_length in Hj. rewrite Hs1 by lia.
+          symmetry. apply nth_firstn_lt. lia.
+      - assert (Ed : (op s + Z.of_nat (length lits) =? oend) || (p1 + Z.of_nat (length lits) >=? iend - 2) = true) by lia.
+        rewrite orb_false_l, Ed. cbn [is_done op dm].
+        replace (Z.min ll (oend - op s)) with ll by lia.
+        split; [lia|].
+        replace (Z.to_nat (ll - ll)) with 0%nat by lia. cbn [skipn].
+        rewrite Nat2Z.id.
+        apply lits_out_v with (m := dm s); try assumption.
+        + apply blit_same_below.
+        + apply blit_lits; [exact Hs1 | lia]. }
+    destruct (tok / 16 =? RUN_MASK) eqn:E15; cbv beta iota.
+    - unfold read_len in Hrl1. assert (E15' : (tok / 16 =? 15) = true) by fin. rewrite E15' in Hrl1.
+      destruct (rvl_sim r ll r1 (ip s + 1) (iend - RUN_MASK) true (ok s && rd_src iend (ip s) 1) Hrl1 Hsr) as (_ & _ & kf' & Hr); [fin | fin | fin |].
+      rewrite Hr. cbv beta iota. fold p1.
+      replace (tok / 16 + (ll - 15)) with (Z.of_nat (length lits)) by fin.
+      apply Hlit.
+    - assert (Hlt15 : tok / 16 < 15) by fin.
+      destruct (Hnoext Hlt15) as [Ell' Er].
+      assert (Ep1 : p1 = ip s + 1) by (unfold p1; rewrite Er; lia).
+      rewrite <- Ep1. replace (tok / 16) with (Z.of_nat (length lits)) by lia.
+      apply Hlit.
+  Qed.
+
+  (* ---------- the safe loop on a strictly valid block, partial decoding ---------- *)
+  Lemma run_sim_part : forall f (bs : list Z) ss (last : list Z), parse_seqs f bs = Some (ss, last) ->
+    forall rout rout' s fuel,
+    partial = true ->
+    apply_seqs rout ss = Some rout' -> end_ok ss last = true ->
+    bytes bs -> src_at srcm (ip s) bs -> 0 <= ip s -> ip s + Z.of_nat (length bs) <= iend ->
+    (ip s + Z.of_nat (length bs) = iend \/ oend <= op s + total_len ss last) ->
+    out_at (vget (dm s)) (op s) rout -> Z.of_nat (length rout) <= op s - lowPrefix -> 0 <= op s -> op s <= oend ->
+    (length bs < fuel)%nat ->
+    exists s', run partial dict srcm iend oend lowPrefix rlow dictm dictSize fuel false s
+               = (Z.min oend (op s + total_len ss last), s')
+               /\ out_at (vget (dm s')) (Z.min oend (op s + total_len ss last))
+                    (skipn (Z.to_nat (op s + total_len ss last - Z.min oend (op s + total_len ss last))) (rev last ++ rout')).
+  Proof.
+    induction f as [|f IH]; intros bs ss last H rout rout' s fuel Hp Happ Hend Hb Hs Hip Hie Hex O Hlen Hop Hoe Hfuel;
+      [discriminate|]. rewrite parse_seqs_S in H.
+    destruct bs as [|tok r]; [discriminate|].
+    destruct (read_len (tok / 16) r) as [[ll r1]|] eqn:E1; [|discriminate].
+    destruct (take (Z.to_nat ll) r1) as [[lits r2]|] eqn:E2; [|discriminate].
+    destruct fuel as [|fuel]; [lia|].
+    cbn [run].
+    assert (Ell : ll = Z.of_nat (length lits) \/ r2 <> r2).
+    { left. destruct (take_spec _ _ _ _ E2) as [_ Hl]. destruct (bytes_cons _ _ Hb) as [Htok Hbr].
+      destruct (nibbles tok Htok) as [Hn1 _].
+      destruct (src_at_cons _ _ _ _ Hs) as [_ Hsr].
+      destruct (read_len_suffix _ _ _ _ _ Hn1 E1 Hbr Hsr) as (_ & Hll & _). unfold byte in *. lia. }
+    destruct Ell as [Ell|Ell]; [|exfalso; apply Ell; reflexivity].
+    destruct r2 as [|o1 [|o2 r3]]; [| discriminate |].
+    - (* last sequence: literals only *)
+      assert (Hss : ss = []) by congruence. assert (Hla : lits = last) by congruence. clear H. subst ss last.
+      cbn [apply_seqs] in Happ. assert (Hr' : rout = rout') by congruence. subst rout'.
+      cbn [total_len fold_right] in *. rewrite <- Ell in *.
+      pose proof (safe_top_last_part s tok r ll r1 lits rout Hp Hb Hs Hip Hie Hex E1 E2 O Hop Hoe) as HL.
+      destruct (safe_top partial dict srcm iend oend lowPrefix rlow dictm dictSize s) as [[|] s'|s'|s'];
+        cbn [is_done] in HL; try (exfalso; exact HL).
+      destruct HL as [H1 H2].
+      exists s'. replace (Z.min oend (op s + ll)) with (op s + Z.min ll (oend - op s)) by lia.
+      rewrite <- H1. split; [reflexivity|].
+      replace (op s + ll - op s') with (ll - Z.min ll (oend - op s)) by lia. exact H2.
+    - (* a complete sequence in the input *)
+      destruct (read_len (tok mod 16) r3) as [[ml r4]|] eqn:E3; [|discriminate].
+      destruct (parse_seqs f r4) as [[ss' last']|] eqn:E4; [|discriminate].
+      assert (Hss : mkSeq lits (o1 + 256 * o2) (ml + 4) :: ss' = ss) by congruence.
+      assert (Hlast : last' = last) by congruence. clear H. subst ss last.
+      cbn [apply_seqs] in Happ.
+      destruct (apply_seq rout (mkSeq lits (o1 + 256 * o2) (ml + 4))) as [rout1|] eqn:Eapp; [|discriminate].
+      pose proof (apply_seqs_mlen _ _ _ Happ) as Fml.
+      assert (Hml0 : 0 <= ml + 4).
+      { unfold apply_seq in Eapp. cbn [s_off s_mlen] in Eapp. destruct (off_ok (o1 + 256 * o2) && (4 <=? ml + 4)) eqn:E; [lia|discriminate]. }
+      destruct (end_room ss' (mkSeq lits (o1 + 256 * o2) (ml + 4)) last' Hend) as (H5 & H12 & Hend').
+      { constructor; [cbn [s_mlen]; lia | exact Fml]. }
+      pose proof (total_len_ge ss' last' Fml) as Htl.
+      pose proof (parse_seqs_len _ _ _ _ E4) as Hr4.
+      cbn [total_len fold_right s_lits s_mlen] in *. fold (total_len ss' last') in *.
+      rewrite <- Ell in *.
+      assert (Hlen1 : length rout1 = (length rout + length lits + Z.to_nat (ml + 4))%nat).
+      { unfold apply_seq in Eapp. cbn [s_lits s_off s_mlen] in Eapp.
+        destruct (off_ok (o1 + 256 * o2) && (4 <=? ml + 4)); [|discriminate].
+        apply copy_match_length in Eapp. rewrite app_length, rev_length in Eapp. unfold byte in *. lia. }
+      assert (HS : is_cont_or_done (safe_top partial dict srcm iend oend lowPrefix rlow dictm dictSize s)
+                 (part_post (op s) (ll + (ml + 4)) rout1
+                    (fun s' => ip s' + Z.of_nat (length r4) = ip s + Z.of_nat (length (tok :: r)) /\
+                               src_at srcm (ip s') r4 /\ bytes r4))).
+      { apply (safe_top_seq_part s tok r ll r1 lits o1 o2 r3 ml r4 rout rout1); try assumption; unfold byte in *; try lia. }
+      assert (Hshr : (length r4 + 2 <= length r)%nat).
+      { pose proof (read_len_shorter _ _ _ _ E1). pose proof (read_len_shorter _ _ _ _ E3).
+        destruct (take_spec _ _ _ _ E2) as [Er1 _]. unfold byte in *.
+        assert (length r1 = (length lits + S (S (length r3)))%nat) by (rewrite Er1, app_length; reflexivity). lia. }
+      destruct (apply_seqs_suffix _ _ _ Happ) as (X & HX & HXl).
+      destruct (safe_top partial dict srcm iend oend lowPrefix rlow dictm dictSize s) as [[|] s'|s'|s'];
+        cbn [is_cont_or_done] in HS; try (exfalso; exact HS); unfold part_post in HS.
+      + (* the sequence was completed: go on *)
+        destruct HS as (Ho' & O' & Hmin & Hi' & Hs' & Hb').
+        rewrite Hmin in *. replace (Z.to_nat (ll + (ml + 4) - (ll + (ml + 4)))) with 0%nat in O' by lia. cbn [skipn] in O'.
+        cbn [length] in Hi', Hie, Hfuel, Hex.
+        destruct (IH r4 ss' last' E4 rout1 rout' s' fuel Hp Happ Hend' Hb' Hs') as (s'' & Hrun & Hout).
+        * unfold byte in *; lia.
+        * unfold byte in *; lia.
+        * unfold byte in *; lia.
+        * exact O'.
+        * unfold byte in *; lia.
+        * unfold byte in *; lia.
+        * unfold byte in *; lia.
+        * unfold byte in *; lia.
+        * exists s''. rewrite Hrun.
+          replace (op s' + total_len ss' last') with (op s + (ll + (ml + 4) + total_len ss' last')) in * by lia.
+          split; [reflexivity | exact Hout].
+      + (* the sequence was cut at oend: done *)
+        destruct HS as (Ho' & O' & Hend2).
+        exists s'.
+        replace (Z.min oend (op s + (ll + (ml + 4) + total_len ss' last'))) with (op s') by lia.
+        split; [reflexivity|].
+        rewrite HX. rewrite app_assoc.
+        replace (Z.to_nat (op s + (ll + (ml + 4) + total_len ss' last') - op s'))
+          with (Z.to_nat (total_len ss' last') + Z.to_nat (ll + (ml + 4) - Z.min (ll + (ml + 4)) (oend - op s)))%nat by lia.
+        rewrite skipn_app_exact; [exact O'|].
+        rewrite app_length, rev_length. rewrite total_len_last. unfold byte in *. lia.
   Qed.
 
 End Sim.
